@@ -190,4 +190,42 @@ def suite_codecs(ctx):
     return s
 
 
-SUITES = [suite_codecs]
+def suite_helper_frames(ctx):
+    """the helper values on the wire: the byte a CommunicationType stands for is the byte communication_control transmits (every sub-network, both message flags,
+    given as object / int / bytes, under every edition), and a Baudrate reaches link_control as its identifier (control type 1) or as its 24-bit rate (control type
+    2) whichever of its encodings it was given in"""
+    from .. import clientlib as cl
+    from udsoncan.common.CommunicationType import CommunicationType
+    from udsoncan.common.Baudrate import Baudrate
+    s = Suite('helper_frames')
+
+    def frames(std, fn):
+        client, conn = cl.make_client(cl.Cfg(rt=4, p2=2, p2s=2, std=std))
+        cl.observe_outer(conn, lambda: fn(client))
+        return [o[1] for o in conn.log if o[0] == 'send']
+    for std in (2006, 2013, 2020):
+        for sn in range(16):
+            for n, m_ in ((True, False), (False, True), (True, True)):
+                b = sn << 4 | (1 if n else 0) | (2 if m_ else 0)
+                for form, val in (('object', CommunicationType(sn, n, m_)), ('int', b), ('bytes', bytes([b]))):
+                    got = frames(std, lambda c: c.communication_control(0, val))
+                    s.evaluations += 1
+                    s.distinct.add('cc:%d:%d:%s' % (std, b, form))
+                    if got != [bytes([0x28, 0x00, b])]:
+                        s.fail({'site': 'communication_control', 'input': 'communication type 0x%02x given as %s under the %d edition' % (b, form, std),
+                                'observed': [x.hex() for x in got], 'required': bytes([0x28, 0x00, b]).hex()})
+    for rate, ident in ISO_BAUD.items():
+        forms = [('fixed', lambda: Baudrate(rate, Baudrate.Type.Fixed)), ('specific', lambda: Baudrate(rate, Baudrate.Type.Specific)),
+                 ('identifier', lambda: Baudrate(ident, Baudrate.Type.Identifier)), ('auto from the rate', lambda: Baudrate(rate)), ('auto from the identifier', lambda: Baudrate(ident))]
+        for fname, mk in forms:
+            for ct, want in ((1, bytes([0x87, 1, ident])), (2, bytes([0x87, 2]) + rate.to_bytes(3, 'big'))):
+                got = frames(2020, lambda c: c.link_control(ct, mk()))
+                s.evaluations += 1
+                s.distinct.add('lc:%d:%s:%d' % (rate, fname, ct))
+                if got != [want]:
+                    s.fail({'site': 'link_control', 'input': 'link_control(%d, Baudrate %d bit/s given as %s)' % (ct, rate, fname), 'observed': [x.hex() for x in got], 'required': want.hex()})
+    s.exhaustive = True
+    return s
+
+
+SUITES = [suite_codecs, suite_helper_frames]
